@@ -6,7 +6,7 @@ import tempfile
 from collections import defaultdict
 
 from engine import REPO, gen_states, pool_map
-from readers import eol_for, gaf_record, read_text, run_cli, write_text
+from readers import join_lines, gaf_record, read_text, run_cli, write_text
 
 EXTRA = ["tp:A:P", "NM:i:-3", "zd:Z:a:b c#1"]
 
@@ -83,6 +83,9 @@ def proj(line):
 
 def run_graph(job):
     gid, segs, walks, mode, gaf_storage, gfa_gz = job
+    import readers as _rd
+
+    _rd.CASE = str(gid)
     d = tempfile.mkdtemp(prefix="coords_")
     try:
         gfa = os.path.join(d, "g.gfa" + (".gz" if gfa_gz else ""))
@@ -95,7 +98,7 @@ def run_graph(job):
             spans.append((wid, w, len(lines), len(lines) + len(recs)))
             lines += recs
         u = os.path.join(d, "u.gaf" + (".gz" if gaf_storage == "bgzf" else ""))
-        write_text(u, "\n".join(lines) + eol_for(gid), gaf_storage, block=700)
+        write_text(u, join_lines(lines, gid), gaf_storage, block=700)
         s, u2, s2 = (os.path.join(d, x) for x in ("s.gaf", "u2.gaf", "s2.gaf"))
         status = "ok"
         for src, dst, fmt in ((u, s, "stable"), (s, u2, "unstable"), (u2, s2, "stable")):
